@@ -1,7 +1,7 @@
 #!/bin/sh
 # ./seedauto.sh <Cxx> : validate /tmp/wt/Cxx/_mut/{1,2} (demo location parsed from README) and store under seeded/
 ID=$1
-for k in 1 2 3 4 5 6 7 8 9 10 11 12 13 14 15 16; do
+for k in 1 2 3 4 5 6 7 8 9 10 11 12 13 14 15 16 17 18; do
   [ -d seeded/$ID-$k ] && continue
   M=/tmp/wt/$ID/_mut/$k
   [ -f $M/patch.diff ] || continue
